@@ -5,10 +5,11 @@ deterministic, inexpressible regions are skipped without altering the rest.
 Model: `Impl/Decimal.lean` (decimal printer / reader), `Impl/Ds9.lean` (writer, reader,
 structured level), `Impl/Ds9Text.lean` (characters).  Meaning: `Spec/C09.lean`.
 All theorems are for lists of ANY length, any precision, any hash order `ord`, and any `Cfg`
-(= which of the writer defects F3/F4/F5 are repaired); `codeCfg` is the tree as it is.  `sky` is
-astropy's number formatting (all sky numbers, all angles), a parameter with the laws `SkyLaw`
-(value within half a unit) / `SkyFix` (a `p`-decimal is printed as itself) where a theorem needs them.
-The reader is modelled as of commits be2b52e, f813781, bd2caa9, 1c54a50, ec59199 of /repo.
+(= which of the writer defects F3/F4/F5 are repaired); `codeCfg` is the tree as it is: all three
+repaired (d58a058, 80f2f4f, 193fdcf); `Cfg.unrepaired` is the writer before them (regression
+witnesses).  `sky` is astropy's number formatting (all sky numbers, all angles), a parameter with
+the laws `SkyLaw` (value within half a unit) / `SkyFix` (a `p`-decimal is printed as itself) where a
+theorem needs them.  The reader is modelled as of be2b52e, f813781, bd2caa9, 1c54a50, ec59199.
 
 Clause by clause
 * decimal text       `dec_roundtrip`, `dec_fixed`                                  — theorems.
@@ -16,26 +17,21 @@ Clause by clause
                      printed rounding of every number, text / label / tags for ANY strings, include sense),
                      `coord_tolerance`, `sky_coord_tolerance`, `num_tolerance` (half a unit; one unit on
                      ellipse full axes; longitudes on the circle).
-                     Full strength for the current code `ds9_roundtrip_full` is REFUTED two ways
-                     (F4: the bool `False` is written `include=False`; F19: a size below the printed unit);
-                     `ds9_roundtrip_partial` holds on the decidable vocabulary `Vocab`;
-                     `ds9_reader_accepts_iff`: the reader accepts a written line iff `WellRounded` (F19).
+                     Full strength `ds9_roundtrip_full` is still REFUTED by F19 (a size below the printed
+                     unit: `ds9_roundtrip_full_refuted_tiny`); `ds9_roundtrip_partial` holds on the decidable
+                     vocabulary `Vocab`; `ds9_reader_accepts_iff`: the reader accepts a written line iff
+                     `WellRounded` (exactly the F19 class).
 * fixed point        `ds9_fixed_point` — TOTAL (no exception, result equal as `Region.__eq__`) on lists in
                      the reader's normal form `ReaderNormal` with default visual metadata, every cfg;
                      `ds9_fixed_point_current` is the clause for the code as it is.
                      Visual metadata at the fixed point: validated only.
-* determinism        `serialize_order_irrelevant` (F5 repaired), `serialize_order_full_refuted` (current
-                     code), `serialize_order_only_global` (the order of the `global` items is the only thing
-                     that depends on the hash order, every cfg).  Across interpreter runs: run-time check.
-* skipping           `skip_independent` (a writer that skips), `skip_independent_full_refuted` and
-                     `skip_current_raises` (current code raises: F3).
+* determinism        `serialize_order_current` (the output is a function of the list), from
+                     `serialize_order_irrelevant`; `serialize_order_only_global` (every cfg).
+                     Across interpreter runs: run-time check.
+* skipping           `skip_independent_current`, from `skip_independent`.
+* regression         `skip_unrepaired_refuted` / `skip_unrepaired_raises` (F3), `excludedBool_unrepaired_trip`
+                     (F4), `serialize_order_unrepaired_refuted` (F5): what the writer did before the fixes.
 * characters         `lex (render o) = toRaw o` is NOT a theorem: evaluated by the driver on every case.
-
-When the lead applies proposed_fixes/F3_c09, F4_c09, F5_c09 and flips the flags of `Impl.Ds9.codeCfg`,
-the `*_refuted` theorems (and their `*_trip` witnesses) stop compiling — delete them; the `*_full`
-statements then follow from the general theorems (`skip_independent … rfl`, `serialize_order_irrelevant … rfl`);
-`ds9_roundtrip_full` stays refuted by F19 (`ds9_roundtrip_full_refuted_tiny`) until sizes below the
-printed precision are handled.
 -/
 import RegionsVerif.Lemmas.Ds9Fixed
 
@@ -206,26 +202,30 @@ theorem skip_independent (cfg : Cfg) (hs : cfg.skip = true) (ord : List Key) (p 
     simp
     omega
 
-/-- the clause for the code as it is. -/
-def skip_independent_full : Prop :=
-  ∀ (ord : List Key) (p : ℕ) (l₁ l₂ : List Region) (r : Region), ¬ Expressible r →
-    serialize codeCfg ord p (l₁ ++ r :: l₂) = serialize codeCfg ord p (l₁ ++ l₂)
+/-- the clause for the code as it is (F3 repaired by d58a058). -/
+theorem skip_independent_current (ord : List Key) (p : ℕ) (l₁ l₂ : List Region) (r : Region)
+    (hr : ¬ Expressible r) :
+    serialize codeCfg ord p (l₁ ++ r :: l₂) = serialize codeCfg ord p (l₁ ++ l₂) :=
+  (skip_independent codeCfg rfl ord p l₁ l₂ r hr).1
 
 /-- a compound of two pixel circles. -/
 def compoundWitness : Region := ⟨.compound, .image, [], [], none, [], []⟩
 def circleWitness : Region := ⟨.circle, .image, [(1, 2)], [3], none, [], []⟩
 
-/-- F3: the current writer raises on a compound region instead of skipping it. -/
-theorem skip_independent_full_refuted : ¬ skip_independent_full := by
+/-- regression witness F3: the writer before d58a058 raised on a compound region instead of
+skipping it (the clause was refuted for it). -/
+theorem skip_unrepaired_refuted :
+    ¬ ∀ (ord : List Key) (p : ℕ) (l₁ l₂ : List Region) (r : Region), ¬ Expressible r →
+      serialize Cfg.unrepaired ord p (l₁ ++ r :: l₂) = serialize Cfg.unrepaired ord p (l₁ ++ l₂) := by
   intro h
   have := h [] 3 [] [circleWitness] compoundWitness (by decide)
   revert this
   decide +kernel
 
-/-- … and it raises exactly when the list contains a region DS9 cannot express (or an earlier
-region already made it raise): the failing input class of the skip clause is *every* list the
-clause speaks about. -/
-theorem skip_current_raises (cfg : Cfg) (hs : cfg.skip = false) (ord : List Key) (p : ℕ)
+/-- … a writer that does not skip raises exactly when the list contains a region DS9 cannot express
+(or an earlier region already made it raise): the failing input class of the skip clause was
+*every* list the clause speaks about. -/
+theorem skip_unrepaired_raises (cfg : Cfg) (hs : cfg.skip = false) (ord : List Key) (p : ℕ)
     (rs : List Region) (h : ∃ r ∈ rs, ¬ Expressible r) : ∃ e, serialize cfg ord p rs = .error e := by
   have hcol : ∃ e, collect (serializeRegion cfg) rs = .error e := by
     induction rs with
@@ -281,8 +281,8 @@ structure Preserved (sky : ℚ → ℚ) (p : ℕ) (r r' : Region) : Prop where
   tags : tagList r' = tagList r
   incl : includeSense r' = includeSense r
 
-/-- the clause for the code as it is: every list of well-formed expressible regions goes through
-writer and reader without an exception and every region is `Preserved`. -/
+/-- the clause for the code as it is, at full strength: every list of well-formed expressible regions
+goes through writer and reader without an exception and every region is `Preserved`. -/
 def ds9_roundtrip_full : Prop :=
   ∀ (ord : List Key) (p : ℕ) (rs : List Region), (∀ r ∈ rs, WF r ∧ Expressible r) →
     ∃ out, roundTrip codeCfg ord (roundTo p) p rs = .ok out ∧ List.Forall₂ (Preserved (roundTo p) p) rs out
@@ -292,26 +292,21 @@ def excludedBool : Region := ⟨.circle, .image, [(1, 2)], [3], none, [(.include
 /-- F19: a radius below half a unit of the third decimal. -/
 def tinyCircle : Region := ⟨.circle, .image, [(1, 2)], [1 / 10000], none, [], []⟩
 
-/-- the region that comes back for `excludedBool` (computed by the model; the same comes back from
-the real code, see known_findings/C09.json): `include=False` is dropped as invalid, and a region
-without the key counts as included. -/
+/-- regression witness F4: with the writer before 80f2f4f the flag was printed `include=False`, which
+the reader drops as invalid: the region came back without the key, i.e. included. -/
 def noFlagBack : Region :=
   ⟨.circle, .image, [(1, 2)], [3], none, [], [(.default_style, .str "ds9".toList)]⟩
 
-theorem excludedBool_trip : roundTrip codeCfg [] (roundTo 3) 3 [excludedBool] = .ok [noFlagBack] := by
-  decide +kernel
-theorem tinyCircle_trip : roundTrip codeCfg [] (roundTo 3) 3 [tinyCircle] = .error "ValueError" := by
+theorem excludedBool_unrepaired_trip :
+    roundTrip Cfg.unrepaired [] (roundTo 3) 3 [excludedBool] = .ok [noFlagBack] := by decide +kernel
+
+/-- … and with the repaired writer it comes back excluded. -/
+theorem excludedBool_trip : roundTrip codeCfg [] (roundTo 3) 3 [excludedBool] =
+    .ok [⟨.circle, .image, [(1, 2)], [3], none, [(.include, .int 0)], [(.default_style, .str "ds9".toList)]⟩] := by
   decide +kernel
 
-/-- F4: exclusion is lost (`include=False` is unreadable). -/
-theorem ds9_roundtrip_full_refuted_include_bool : ¬ ds9_roundtrip_full := by
-  intro h
-  obtain ⟨out, hout, hf⟩ := h [] 3 [excludedBool] (by decide)
-  rw [excludedBool_trip] at hout
-  simp only [Except.ok.injEq] at hout
-  subst hout
-  cases hf with
-  | cons hp _ => exact absurd hp.incl (by decide)
+theorem tinyCircle_trip : roundTrip codeCfg [] (roundTo 3) 3 [tinyCircle] = .error "ValueError" := by
+  decide +kernel
 
 /-- F19: a size below half a printed unit is written as `0.000` and the reader raises. -/
 theorem ds9_roundtrip_full_refuted_tiny : ¬ ds9_roundtrip_full := by
@@ -401,10 +396,11 @@ example : Vocab codeCfg none
     ⟨.circle, .icrs, [(10, 20)], [1 / 2], none,
      [(.text, .str "{a b};c # d=e}".toList), (.tag, .strs ["42".toList, "g;2".toList]), (.include, .int 0)],
      [(.color, .str "red".toList)]⟩ := by decide +kernel
-/-- … the excluded-by-`False` region is outside it for the current code and inside it once F4 is
-repaired; an excluded-by-`0` region is outside it only when the `global` line spells a `False`. -/
-example : ¬ Vocab codeCfg none excludedBool := by decide +kernel
-example : Vocab Cfg.repaired none excludedBool := by decide +kernel
+/-- … the excluded-by-`False` region was outside it before F4 was repaired and is inside it now; an
+excluded-by-`0` region is outside it only when the `global` line spells a `False` (impossible for
+the repaired writer, which hoists ints). -/
+example : ¬ Vocab Cfg.unrepaired none excludedBool := by decide +kernel
+example : Vocab codeCfg none excludedBool := by decide +kernel
 example : Vocab codeCfg (some (.int 0)) ⟨.circle, .image, [(1, 2)], [3], none, [(.include, .int 0)], []⟩ := by
   decide +kernel
 example : ¬ Vocab codeCfg (some (.bool false))
@@ -449,22 +445,25 @@ theorem serialize_order_irrelevant (cfg : Cfg) (h : cfg.orderedGlobal = true) (o
   unfold serialize
   simp only [hoist_ordered cfg h ord₁ ord₂]
 
-/-- the determinism clause for the code as it is: the text does not depend on the iteration
-order of the hash set. -/
-def serialize_order_full : Prop :=
-  ∀ (ord₁ ord₂ : List Key) (p : ℕ) (rs : List Region),
-    serialize codeCfg ord₁ p rs = serialize codeCfg ord₂ p rs
+/-- the determinism clause for the code as it is (F5 repaired by 193fdcf): the output is a
+function of the region list alone. -/
+theorem serialize_order_current (ord₁ ord₂ : List Key) (p : ℕ) (rs : List Region) :
+    serialize codeCfg ord₁ p rs = serialize codeCfg ord₂ p rs :=
+  serialize_order_irrelevant codeCfg rfl ord₁ ord₂ p rs
 
 def redWide : Region :=
   ⟨.circle, .image, [(1, 2)], [3], none, [], [(.color, .str "red".toList), (.linewidth, .int 2)]⟩
 
-theorem serialize_order_full_refuted : ¬ serialize_order_full := by
+/-- regression witness F5: with `dict(set.intersection(…))` the text depended on the hash order. -/
+theorem serialize_order_unrepaired_refuted :
+    ¬ ∀ (ord₁ ord₂ : List Key) (p : ℕ) (rs : List Region),
+      serialize Cfg.unrepaired ord₁ p rs = serialize Cfg.unrepaired ord₂ p rs := by
   intro h
   have := h [.color, .width] [.width, .color] 3 [redWide, redWide]
   revert this
   decide +kernel
 
-/-- … and the order of the items of the `global` line is the *only* thing that depends on it:
+/-- … and even then the order of the items of the `global` line was the *only* thing that depended on it:
 same lines, same frame line, same `global` dictionary as a mapping — for every `cfg`. -/
 theorem serialize_order_only_global (cfg : Cfg) (ord₁ ord₂ : List Key) (p : ℕ) (rs : List Region)
     (o₁ o₂ : WOut) (h₁ : serialize cfg ord₁ p rs = .ok (some o₁)) (h₂ : serialize cfg ord₂ p rs = .ok (some o₂)) :
